@@ -77,7 +77,7 @@ package nsqd
 // 1 <= pool <= max(1, QueueScanWorkerPoolMax); a worker is stopped by exactly one message on closeCh; no work is handed out and no
 // answer is consumed here.
 //@ func (n *NSQD) resizePool(num int, workCh chan *Channel, responseCh chan bool, closeCh chan int)
-//@   props C01 C04
+//@   props C01 C04 C02
 //   No configuration assumption: the pool never drops below one worker whatever --queue-scan-worker-pool-max says (before the fix a value
 //   of 0 or less stopped every worker and the scan loop blocked for ever: finding recorded in /verif/known_findings.txt).
 //@   requires n != nil
@@ -97,7 +97,7 @@ package nsqd
 // ... is delivered soon after"; C01): for every work item the worker runs BOTH scans - processInFlightQueue AND processDeferredQueue -
 // on the channel it received, with the current time, and answers `dirty` iff one of them did work.
 //@ func (n *NSQD) queueScanWorker(workCh chan *Channel, responseCh chan bool, closeCh chan int)
-//@   props C01 C04
+//@   props C01 C04 C02 C13
 //@   requires n != nil
 //@   modifies Channel.inFlightMessages, Channel.inFlightPQ, mapstore(map[MessageID]*Message), elems(*Message), Message.index, deref(inFlightPqueue), Channel.timeoutCount,
 //@        Channel.clients, mapstore(map[int64]Consumer), clientV2.InFlightCount, kConsTimedOut, kLastCons, kIFShifts, lastPopped,
@@ -126,7 +126,7 @@ package nsqd
 // CONFIGURATION ASSUMPTIONS (requires[config]): --queue-scan-selection-count >= 1 (0: nothing is ever scanned; negative: make(chan)
 // panics at start-up) and --queue-scan-worker-pool-max >= 1 (see resizePool). Defaults 20 and 4. Notes, observation O1.
 //@ func (n *NSQD) queueScanLoop()
-//@   props C01 C04
+//@   props C01 C04 C02
 //@   requires n != nil
 //@   requires[config] curOpts(n).QueueScanSelectionCount >= 1
 //@   modifies n.topicMap, mapstore(map[string]*Topic), Topic.channelMap, mapstore(map[string]*Channel), r4AChannelsCalls, r4ALastChannels,
